@@ -250,6 +250,17 @@ Fixpoint r_zip_styles (r o : list rchar) : list rchar :=
   end.
 Definition r_copy_styles (r o : ref) : ref := mkRef (r_zip_styles (rchars r) (rchars o)) (rmeta r).
 
+(* Highlighter.__call__ on reference values: the same characters and metadata, every existing style kept,
+   the matches appended as the last styles of the characters they cover *)
+Definition r_regex_highlight (r : ref) (pats : list hl_pattern) : ref :=
+  fold_left (fun r p => r_add_spans r (runs_from (fst p) (rplain (rchars r)) 0 None (snd p))) pats r.
+Definition r_highlighter (pats : list hl_pattern) (a : hl_arg) (r : ref) : res ref :=
+  match a with
+  | HText => Ok (r_regex_highlight r pats)
+  | HStr s => Ok (r_regex_highlight (r_ctor s (default_meta 0)) pats)
+  | HOther => Crash K_TypeError
+  end.
+
 Definition r_part_of (p : apart) : rpart :=
   match p with
   | APStr s => RStr s
@@ -291,6 +302,7 @@ Definition r_apply (o : op) (r : ref) : res ref :=
   | OHighlightWords ws st => Ok (r_add_spans r (words_from ws (rplain (rchars r)) 0 0 st))
   | OHighlightRuns set st => Ok (r_add_spans r (runs_from set (rplain (rchars r)) 0 None st))
   | OCopyStyles a => Ok (r_copy_styles r (r_arg a))
+  | OHighlighter pats a => r_highlighter pats a r
   end.
 Definition r_step (r : ref) (o : op) : ref := match r_apply o r with Ok r' => r' | _ => r end.
 Definition run_ref (ops : list op) (r : ref) : ref := fold_left r_step ops r.
@@ -443,3 +455,24 @@ Definition alt_ok (o : op) (r : ref) : bool :=
       end
   | _ => true
   end.
+
+(* a highlighter of ANY kind (ReprHighlighter, a user's regexes): what __call__ may do to a Text -- same
+   characters, length and metadata; every existing span kept, in place and in order; only spans inside
+   the text appended *)
+Fixpoint strip_span_prefix (a b : list span) : option (list span) :=
+  match a, b with
+  | [], _ => Some b
+  | x :: a', y :: b' =>
+      if (sp_start x =? sp_start y) && (sp_end x =? sp_end y) && (sp_style x =? sp_style y)
+      then strip_span_prefix a' b' else None
+  | _ :: _, [] => None
+  end.
+Definition hl_ok_b (before after : text) : bool :=
+  str_eqb (plain after) (plain before) && (len after =? len before) && meta_eqb (tmeta after) (tmeta before)
+  && match strip_span_prefix (spans before) (spans after) with
+     | Some extra => forallb (span_within (len before)) extra
+     | None => false
+     end.
+Definition text_eqb (a b : text) : bool :=
+  str_eqb (plain a) (plain b) && (len a =? len b) && meta_eqb (tmeta a) (tmeta b)
+  && match strip_span_prefix (spans a) (spans b) with Some [] => true | _ => false end.
